@@ -1,12 +1,30 @@
-"""C03: see props/cluster.py (one recorded trace family, this property's own formulas in Trace_Cluster.tla)."""
-from props import cluster
+"""C03: see props/cluster.py (one recorded trace family, this property's own formulas in Trace_Cluster.tla); plus the content of
+the random-seed shares as a function table (Trace_SeedFmt.tla): the bytes every node signs and verifies."""
+import json
+from props import cluster, tables
 
 PID = "C03"
 
 
+def _classify(line, tags):
+    return {"tags": tags, "part": "seedfmt"}, "RandomSeedToBytes(%s) -> %r: %s" % (line.get("seed"), line.get("out"), ",".join(tags))
+
+
+def seed_content(rep, tier, seed, replay_in=None):
+    tables.run_table(rep, PID, "seedfmt", ["-seed", seed, "-rand", 300 if tier == "quick" else 5000], "Trace_SeedFmt", "Trace_SeedFmt.cfg",
+                     _classify, replay_in=replay_in, sample_keys=["seed", "out", "stable", "conc_stable"], distinct_key=lambda e: e.get("seed"))
+
+
 def run(tier, seed):
-    return cluster.simple_check(PID, tier, seed)
+    return cluster.simple_check(PID, tier, seed, extra=seed_content)
 
 
 def replay(path, seed):
+    payload = json.load(open(path))
+    if payload.get("kind") == "seedfmt-line":
+        import vlib
+        rep = vlib.Report(PID, "quick", seed)
+        rep.replay_of = path
+        seed_content(rep, "quick", payload.get("seed", seed))
+        return rep.finish()
     return cluster.simple_replay(PID, path, seed)
